@@ -267,8 +267,8 @@ mod pls {
 // t-SNE.  Documentation used: `approx_threshold`: "This threshold lies in range (0, inf) where a value
 // of 0 disables approximation" (=> 0 is usable: >= 0); `TSneError`: "negative perplexity", "negative
 // approximation threshold", "number of preliminary iterations larger than total iterations".
-// perplexity == 0 is claimed by neither side; preliminary_iter > max_iter is claimed by neither side here
-// (see `c04_doc_tsne_preliminary_iter`).
+// perplexity == 0 is claimed by neither side; preliminary_iter > max_iter must be rejected
+// (see also `c04_doc_tsne_preliminary_iter`).
 mod tsne {
     use super::*;
     use linfa_tsne::{TSneError, TSneParams};
@@ -294,7 +294,7 @@ mod tsne {
         }
         let zero = F::zero();
         let acc = px > zero && th >= zero && pre.map_or(true, |n| n <= max_iter);
-        let rej = px < zero || th < zero;
+        let rej = px < zero || th < zero || pre.map_or(false, |n| n > max_iter);
         let by_val = p.clone().check();
         let r = p.check_ref();
         verdict(r.is_ok(), acc, rej);
@@ -341,8 +341,9 @@ mod tsne {
         body::<f32>()
     }
 
-    /// DOC-vs-GUARD suspect (weak), isolated: `TSneError::PreliminaryIterationsTooLarge` ("number of
-    /// preliminary iterations larger than total iterations") exists but nothing ever returns it.
+    /// Former DOC-vs-GUARD finding (fixed in /repo 3813ae3, kept as an ordinary check):
+    /// `TSneError::PreliminaryIterationsTooLarge` ("number of preliminary iterations larger than total
+    /// iterations") existed but nothing ever returned it.
     #[kani::proof]
     #[kani::unwind(9)]
     fn c04_doc_tsne_preliminary_iter() {
@@ -609,7 +610,7 @@ mod hierarchical {
 // Documentation used: `n_gram_range`: "`min_n` should not be greater than `max_n`"; `document_frequency`:
 // "`min_freq` and `max_freq` must lie in `0..=1` and `min_freq` should not be greater than `max_freq`";
 // errors "n_gram boundaries cannot be zero", "document frequencies have to be between 0 and 1".
-// Narrowing: frequencies above 1 are claimed by neither side here, see `c04_doc_countvectorizer_frequency_above_one`.
+// (Frequencies above 1: see also `c04_doc_countvectorizer_frequency_above_one`.)
 mod countvec {
     use super::*;
     use linfa_preprocessing::{CountVectorizer, PreprocessingError};
@@ -641,7 +642,7 @@ mod countvec {
         let p = CountVectorizer::params().n_gram_range(min_n, max_n).document_frequency(min_f, max_f).max_features(mf);
         let ngram_ok = min_n >= 1 && max_n >= 1 && min_n <= max_n;
         let acc = ngram_ok && min_f >= 0.0 && min_f <= 1.0 && max_f >= 0.0 && max_f <= 1.0 && min_f <= max_f;
-        let rej = !ngram_ok || min_f < 0.0 || max_f < 0.0 || max_f < min_f;
+        let rej = !acc;
         let by_val = p.clone().check();
         let r = p.check_ref();
         let c_ref = match &r {
@@ -671,8 +672,9 @@ mod countvec {
         std::mem::forget(p);
     }
 
-    /// DOC-vs-GUARD suspect, isolated: "`min_freq` and `max_freq` must lie in `0..=1`" / "document frequencies
-    /// have to be between 0 and 1" -- the guard only tests `< 0`.
+    /// Former DOC-vs-GUARD finding (fixed in /repo 59a4d75, kept as an ordinary check): "`min_freq` and
+    /// `max_freq` must lie in `0..=1`" / "document frequencies have to be between 0 and 1" -- the guard only
+    /// tested `< 0`.
     #[kani::proof]
     #[kani::unwind(5)]
     #[kani::stub(regex::Regex::new, regex_new_stub)]
